@@ -212,6 +212,12 @@ func (s *SoftwrapScanner) Scan(ctx vxfw.DrawContext) bool {
 		// This word is longer than the line. We have to break on
 		// graphemes
 		if wordLen > s.width {
+			// End a line that already has content first: the word
+			// is broken from the start of the next line, so that
+			// the parts of it which fit on a line stay whole
+			if len(s.token) > 0 {
+				return true
+			}
 			s.rest = []byte{}
 			// Append characters to token until we reach the end
 			for _, char := range wordChars {
